@@ -774,6 +774,20 @@ def _assign_env (repo, module, st, env, cls):
       except Exception:
         ne.exact.pop(base, None)
     return ne
+  if isinstance(st, ast.AugAssign) and isinstance(st.target, ast.Subscript) and not isinstance(st.target.slice, ast.Slice):
+    base = norm(st.target.value)
+    cur = ne.exact.get(base)
+    if isinstance(cur, (list, dict)):
+      try:
+        k_ = eval_env2(repo, module, st.target.slice, env, cls)
+        v_ = eval_env2(repo, module, ast.BinOp(left=ast.Subscript(value=st.target.value, slice=st.target.slice, ctx=ast.Load()), op=st.op, right=st.value), env, cls)
+        if k_ is OPAQUE or v_ is OPAQUE: raise _Unknown()
+        c2 = list(cur) if isinstance(cur, list) else dict(cur)
+        c2[k_] = v_
+        ne.exact[base] = c2
+      except Exception:
+        ne.exact.pop(base, None)
+    return ne
   # anything else: kill every name stored
   for t in (st.targets if isinstance(st, ast.Assign) else [st.target]):
     for tt in _flatten(t):
